@@ -232,7 +232,13 @@ def _bessel(kind, nu, x):
     f = {"bessel_j": sympy.besselj, "bessel_y": sympy.bessely, "bessel_i": sympy.besseli, "bessel_k": sympy.besselk}[kind]
     if np.iscomplexobj(x):
         raise Unsupported("bessel of complex argument")
-    return np.vectorize(lambda v: float(f(int(nu), sympy.Float(float(v), 30)).evalf(20)), otypes=[float])(x)
+    def one(v):
+        try:
+            return float(f(int(nu), sympy.Float(float(v), 30)).evalf(20))
+        except TypeError:
+            raise Unsupported("bessel function outside its real domain for this data")
+
+    return np.vectorize(one, otypes=[float])(x)
 
 
 # ---------------------------------------------------------------- evaluator
